@@ -1,5 +1,5 @@
------------------------------ MODULE IPFIXGen -----------------------------
-(* Bounded-exhaustive IPFIX exporter: builds message histories set by set    *)
+---------------------------- MODULE NetFlow9Gen ----------------------------
+(* Bounded-exhaustive NetFlow v9 exporter (same construction as IPFIXGen): builds message histories set by set    *)
 (* from a template catalogue (chosen to hit every branch of the collector)   *)
 (* and checks the reference collector of IPFIX.tla on every one of them:     *)
 (*   RoundTrip         Decode(Encode(content)) = content              (C03)  *)
@@ -8,7 +8,7 @@
 (*   Total/Bounded     the decoder stops, output <= input             (C01/2)*)
 (* Every state is also printed as a CASE line: the same histories are        *)
 (* replayed into the real ipfix.Decoder (binding A).                         *)
-EXTENDS IPFIX, Json
+EXTENDS NetFlow9, Json
 
 CONSTANTS Cat,          \* template ids taken from the catalogue below
           Shapes,       \* data-set shapes <<number of records, first representative record>>
@@ -17,19 +17,16 @@ CONSTANTS Cat,          \* template ids taken from the catalogue below
           MaxMsgs,      \* messages per history
           CheckTrunc, CheckSkip, EmitCases
 
-PenX == <<0, 0, 18, 52>>
-GenExt == [k \in {<<PenX, 1>>, <<PenX, 2>>} |-> IF k[2] = 1 THEN "unsigned16" ELSE "string"]
 F(e, l) == [e |-> e, l |-> l, pen |-> NoPen]
-FE(e, l) == [e |-> e, l |-> l, pen |-> PenX]
 Tpl(id) ==
   CASE id = 256 -> [id |-> 256, scope |-> <<>>, fields |-> <<F(8, 4), F(7, 2)>>]
     [] id = 257 -> [id |-> 257, scope |-> <<>>, fields |-> <<F(12, 4)>>]                      \* one 4-octet record
-    [] id = 258 -> [id |-> 258, scope |-> <<F(149, 4)>>, fields |-> <<FE(1, 2), F(4, 1)>>]    \* options + enterprise
-    [] id = 259 -> [id |-> 259, scope |-> <<>>, fields |-> <<F(82, VarLen), F(4, 1)>>]        \* variable length
+    [] id = 258 -> [id |-> 258, scope |-> <<F(1, 4)>>, fields |-> <<F(34, 4), F(4, 1)>>]      \* options template (scope "System")
+    [] id = 259 -> [id |-> 259, scope |-> <<>>, fields |-> <<F(82, 5), F(4, 1)>>]             \* fixed-length string
     [] id = 260 -> [id |-> 260, scope |-> <<>>, fields |-> <<F(1, 4), F(2, 8), F(150, 4)>>]   \* reduced size
     [] id = 261 -> [id |-> 261, scope |-> <<>>, fields |-> <<F(56, 6), F(27, 16), F(276, 1), F(320, 8), F(152, 8)>>]
     [] id = 262 -> [id |-> 262, scope |-> <<>>, fields |-> <<F(7, 2)>>]                       \* one 2-octet record
-    [] id = 263 -> [id |-> 263, scope |-> <<F(10, 4), F(14, 4)>>, fields |-> <<FE(2, VarLen)>>]
+    [] id = 263 -> [id |-> 263, scope |-> <<F(10, 4), F(14, 2)>>, fields |-> <<F(21, 4), F(22, 4)>>]
 TBad == [id |-> 300, scope |-> <<>>, fields |-> <<F(8, 4), F(9999, 4)>>]   \* element 9999 is not in the model
 Exp == "e1"
 
@@ -46,8 +43,8 @@ Val(f, k) ==
          [] k = 2 -> [o |-> [i \in 1..f.l |-> 255], long |-> FALSE]
          [] OTHER -> [o |-> [i \in 1..f.l |-> (37 * i + 91) % 256], long |-> FALSE]
 Rec(t, k) == LET fs == AllFields(t) IN [i \in 1..Len(fs) |-> Val(fs[i], k)]
-Hdr(k) == IF k = 1 THEN [time |-> <<0, 0, 0, 1>>, seq |-> <<0, 0, 0, 0>>, dom |-> <<0, 0, 0, 7>>]
-                   ELSE [time |-> <<255, 255, 255, 255>>, seq |-> <<128, 0, 0, 1>>, dom |-> <<1, 2, 3, 4>>]
+Hdr(k) == IF k = 1 THEN [count |-> 1, uptime |-> <<0, 0, 0, 1>>, secs |-> <<0, 0, 0, 2>>, seq |-> <<0, 0, 0, 0>>, src |-> <<0, 0, 0, 7>>]
+                   ELSE [count |-> 65535, uptime |-> <<255, 255, 255, 255>>, secs |-> <<128, 0, 0, 0>>, seq |-> <<128, 0, 0, 1>>, src |-> <<1, 2, 3, 4>>]
 
 VARIABLES hist,     \* completed messages (octets)
           cache0,   \* the reference collector's cache after hist
@@ -65,7 +62,7 @@ Init == /\ hist = <<>> /\ cache0 = EmptyCache /\ sets = <<>> /\ want = <<>> /\ k
 Cur == EncMsg(Hdr(hk), sets)
 
 AddTpl == /\ Len(sets) < MaxSets /\ nsets < MaxTotal
-          /\ \E id \in Cat \ known : \E pad \in {0, 2} :
+          /\ \E id \in Cat \ known : \E pad \in {0} :
                /\ sets' = Append(sets, EncTplSet(Tpl(id), pad))
                /\ known' = known \cup {id}
           /\ nsets' = nsets + 1
@@ -75,8 +72,9 @@ AddTpl == /\ Len(sets) < MaxSets /\ nsets < MaxTotal
 AddData == /\ Len(sets) < MaxSets /\ nsets < MaxTotal
            /\ \E id \in known : \E nk \in Shapes :
                 LET t == Tpl(id)  n == nk[1]  k == nk[2] IN
-                \E pad \in {0, Min(3, MinRecLen(t) - 1)} :
-                  LET recs == [i \in 1..n |-> Rec(t, ((k + i - 2) % 3) + 1)] IN
+                LET recs == [i \in 1..n |-> Rec(t, ((k + i - 2) % 3) + 1)]
+                    p4 == (4 - ((n * MinRecLen(t)) % 4)) % 4 IN            \* pad to a 4-octet boundary ...
+                \E pad \in {0, IF p4 < MinRecLen(t) THEN p4 ELSE 0} :     \* ... when that cannot be taken for a record
                   /\ sets' = Append(sets, EncDataSet(t, recs, pad))
                   /\ want' = want \o [i \in 1..n |-> Expect(t, recs[i])]
            /\ nsets' = nsets + 1
@@ -95,7 +93,8 @@ Spec == Init /\ [][Next]_vars
 D == Decode(Cur, Exp, cache0)
 RoundTrip == /\ D.pc = "done" /\ D.nonfatal = 0
              /\ D.out = want
-             /\ D.hdr = [ver |-> 10, len |-> Len(Cur), time |-> Hdr(hk).time, seq |-> Hdr(hk).seq, dom |-> Hdr(hk).dom]
+             /\ D.hdr = [ver |-> 9, count |-> Hdr(hk).count, uptime |-> Hdr(hk).uptime, secs |-> Hdr(hk).secs,
+                          seq |-> Hdr(hk).seq, src |-> Hdr(hk).src]
 TotalBounded == D.pc # "hang" /\ OutBounded(D)
 TruncationPrefix ==
   CheckTrunc => \A n \in 0..Len(Cur) :
@@ -104,9 +103,9 @@ TruncationPrefix ==
                   /\ IsPrefixOf(Result(d).recs, want)
 
 (* undecodable sets: unknown template, reserved ids, a template using an element missing from the model *)
-Undec == { EncSet(999, <<>>, 0), EncSet(999, <<1, 2, 3, 4, 5>>, 0), EncSet(4, <<>>, 0),
+Undec == { EncSet(999, <<>>, 0), EncSet(999, <<1, 2, 3, 4, 5>>, 0), EncSet(4, <<>>, 0), EncSet(2, <<7, 7, 7, 7, 7, 7, 7, 7>>, 0),
            EncSet(255, <<0, 9, 0, 8, 1, 1, 1, 1, 2>>, 0), EncSet(300, <<10, 0, 0, 1, 9, 9, 9, 9>>, 0),
-           EncSet(17, <<0, 0>>, 0) }
+           EncSet(3, <<0, 0>>, 0) }
 InsertAt(ss, i, u) == SubSeq(ss, 1, i) \o <<u>> \o SubSeq(ss, i + 1, Len(ss))
 SkipTransparent ==
   CheckSkip => \A i \in 0..Len(sets) : \A u \in Undec :
